@@ -105,9 +105,23 @@ def run_case(i, rng, tier):
         empty = rng.random() < 0.15
     n = 0 if empty else rng.randint(1, 10)
     stream = S.gen_stream(rng, sp, n)
+    if rng.random() < 0.15:
+        # rows taken from numpy records carry numpy scalars (int64, float64; float32 would legitimately lower the precision of running means): accepted by fill, so the
+        # states they lead to must serialise too
+        import numpy as np
+
+        def npv(v):
+            if isinstance(v, float) and v == v and abs(v) < 1e9 and v == int(v):
+                return np.int64(int(v))
+            return np.float64(v) if isinstance(v, float) else v
+
+        stream = [({f: (npv(v) if f in S.NUMF else v) for f, v in r.items()}, w) for r, w in stream]
+        numpy_rows = True
+    else:
+        numpy_rows = False
     kind = "fill" if empty else rng.choice(["fill", "fill", "add", "scale", "copy", "merge2"])
     failures = []
-    counters = {"state:" + kind: 1, "empty_state" if empty else "filled_state": 1}
+    counters = {"state:" + kind: 1, "empty_state" if empty else "filled_state": 1, "numpy_scalar_rows": int(numpy_rows)}
     sets = {"kinds": S.kinds_in(sp), "strata_" + ("empty" if empty else "filled"): {label}}
     wit = {"tree": S.describe(sp), "spec": sp, "stream": C.stream_json(stream), "state": kind}
 
